@@ -290,6 +290,32 @@ Theorem C19_lifetime_counted_twice_refuted :
   (check_payload w_mac w_secret_a 300 (1250 * giga) (generate_payload w_mac w_secret_a w_nonce 300 (1000 * giga)) = Ok true).
 Proof. exact lifetime_counted_twice_refuted. Qed.
 
+(** every text the server accepts as a payload is exactly 64 hexadecimal digits: a genuine payload
+    followed or preceded by anything (a digit, a non-hex character, white space, NUL) is rejected *)
+Theorem C19_accepted_payload_text_exact :
+  forall hmac secret lifetime now payload,
+    check_payload hmac secret lifetime now payload = Ok true ->
+    length payload = 64%nat /\ Forall is_hex_digit payload.
+Proof. exact accepted_payload_text_exact. Qed.
+
+Theorem C19_payload_with_tail_rejected :
+  forall hmac secret lifetime now payload tail,
+    length payload = 64%nat -> tail <> [] ->
+    check_payload hmac secret lifetime now (payload ++ tail) <> Ok true /\
+    check_payload hmac secret lifetime now (tail ++ payload) <> Ok true.
+Proof. exact payload_with_tail_rejected. Qed.
+
+(* a CheckPayload that ignores the hex-decoding error when 32 bytes were decoded is refuted *)
+Theorem C19_lenient_hex_refuted :
+  (check_payload w_mac w_secret_a 300 (1000 * giga) w_payload = Ok true) /\
+  (check_payload w_mac w_secret_a 300 (1000 * giga) (w_payload ++ [48%N]) = Ok false) /\
+  (check_payload w_mac w_secret_a 300 (1000 * giga) (w_payload ++ [33%N]) = Ok false) /\
+  (check_payload w_mac w_secret_a 300 (1000 * giga) (w_payload ++ [48; 103]%N) = Ok false) /\
+  (check_payload_lenient w_mac w_secret_a 300 (1000 * giga) (w_payload ++ [48%N]) = Ok true) /\
+  (check_payload_lenient w_mac w_secret_a 300 (1000 * giga) (w_payload ++ [33%N]) = Ok true) /\
+  (check_payload_lenient w_mac w_secret_a 300 (1000 * giga) (w_payload ++ [48; 103]%N) = Ok true).
+Proof. exact lenient_hex_refuted. Qed.
+
 (* a server that keys the MAC with the secret cut (or padded) to the 64-byte HMAC block is refuted *)
 Theorem C19_block_key_design_refuted :
   (check_payload w_mac w_secret_b 300 0 (generate_payload w_mac w_secret_a w_nonce 300 0) = Ok false) /\
